@@ -353,6 +353,39 @@ func c18(r *core.Run) {
 					}
 				}
 			}
+			// ... nor does the parsed value share memory with a package-level value: a whole value (or a
+			// slice member of one) loaded from a global and stored into the receiver aliases the global's
+			// backing array - the next decode into the same variable, which reuses the receiver's
+			// buffer, then rewrites the global (store.DeleteValue) for the rest of the process
+			shared := ""
+			for _, f2 := range withAnon(fn) {
+				for _, b := range f2.Blocks {
+					for _, in := range b.Instrs {
+						st, ok := in.(*ssa.Store)
+						if !ok {
+							continue
+						}
+						v := core.Strip(st.Val)
+						g := ""
+						if name, isG := loadedGlobal(v); isG {
+							g = name
+						} else if ld, isLd := v.(*ssa.UnOp); isLd && ld.Op == token.MUL {
+							if fa, isFA := ld.X.(*ssa.FieldAddr); isFA {
+								if gl, isGl := fa.X.(*ssa.Global); isGl {
+									g = gl.Name()
+								}
+							}
+						}
+						if g == "" || !containsSlice(st.Val.Type(), 0) {
+							continue
+						}
+						if derivesFromRecv(st.Addr, 0) {
+							shared = "global " + g + " at " + p.InstrPos(st)
+						}
+					}
+				}
+			}
+			r.Check(shared == "", "V3", core.FuncName(fn), "shares-no-memory-with-a-package-level-value", p.Pos(fn.Pos()), "nothing loaded from a package-level variable that holds a slice is stored into the receiver", "UnmarshalJSON stores a value loaded from a package-level variable into the receiver ("+shared+"): the receiver now shares its byte slice with that variable, and the next decode into the same Value (which reuses the receiver's buffer in place) overwrites the package-level value - every value typed like it then marshals to other, or invalid, JSON")
 			r.Check(bad == "", "V3", core.FuncName(fn), "does-not-retain-input", p.Pos(fn.Pos()), "the input bytes are copied or only parsed, never kept", "UnmarshalJSON keeps its input slice in "+bad+": when the caller (json.Decoder, a read loop, a database item callback) reuses the buffer the decoded value silently changes - it marshals to other JSON and compares equal to different values")
 		}
 	}
@@ -581,6 +614,9 @@ func c18(r *core.Run) {
 					}
 					good := true
 					for _, sv := range paramArgs(p, src, 0) {
+						if _, isConst := core.ConstString(sv); isConst {
+							continue // literal text every caller of the shared encoder hands in
+						}
 						isEnc := false
 						if ex, ok := sv.(*ssa.Extract); ok && ex.Index == 0 {
 							if mc, ok := ex.Tuple.(*ssa.Call); ok && mc.Common().StaticCallee() != nil && mc.Common().StaticCallee().String() == "encoding/json.Marshal" {
@@ -832,6 +868,30 @@ func freshDecodeRule(r *core.Run, rule string, um *ssa.Function, who string, all
 		r.Check(why == "", rule, core.FuncName(c.Parent()), fmt.Sprintf("json.Unmarshal#%d-into-a-fresh-object", n), p.InstrPos(c), "decodes into a zero value made for this call (or the receiver's own member)", who+" decodes into "+why+", an object that is not made for this call: encoding/json leaves members that are absent from the text as they were, so what an earlier (failed or partial) parse left behind decides how the next JSON text is classified")
 	}
 	if n == 0 {
+		for _, c := range helperCalls(p, um) {
+			if core.CalleeName(c) == "(*encoding/json.Decoder).Decode" {
+				r.Bad(rule, core.FuncName(c.Parent()), "payload-decoded-as-one-whole-JSON-text", p.InstrPos(c), who+" decodes with a streaming json.Decoder, which reads the first JSON value and ignores what follows: a payload that is not valid JSON as a whole ({\"query\":\"a\"}] , two objects, trailing garbage) is accepted and answered as if it were well-formed, instead of the error reply for a malformed payload")
+				return
+			}
+		}
 		r.Bad(rule, core.FuncName(um), "json.Unmarshal-into-a-fresh-object", p.Pos(um.Pos()), who+" calls json.Unmarshal nowhere (rule went vacuous)")
 	}
+}
+
+// containsSlice: t is a slice or a struct with a slice member (by value).
+func containsSlice(t types.Type, d int) bool {
+	if d > 3 {
+		return false
+	}
+	switch u := t.Underlying().(type) {
+	case *types.Slice:
+		return true
+	case *types.Struct:
+		for i := 0; i < u.NumFields(); i++ {
+			if containsSlice(u.Field(i).Type(), d+1) {
+				return true
+			}
+		}
+	}
+	return false
 }
